@@ -26,7 +26,7 @@ from checks import common
 MINE = {'TemplateRel', 'Event.TemplateRel', 'Sync', 'Event.Sync', 'Identity', 'Counts.total', 'Counts.unique',
         'Counts.bounds', 'Counts.static', 'CarriedOut', 'OutsideTokens', 'OutsideLines', 'Event.OutsideTokens',
         'Event.OutsideLines', 'Event.Chain', 'Final.Chain', 'Event.MatchedNode', 'Terminates', 'Model.Result',
-        'Model.Counts', 'UnknownEvent'}
+        'Model.Counts', 'UnknownEvent', 'Loop.Bounded', 'Loop.Complete'}
 HARNESS = {'RefAgree', 'Event.RefAgree'}     # spec vs. python reference disagreement = broken machinery, not pfst
 
 _ROW = re.compile(r'<<"CASE", "([^"]*)", (\{[^}]*\}), "([^"]*)", (TRUE|FALSE), (\d+), (\d+), "(\w+)", (TRUE|FALSE), '
@@ -121,6 +121,18 @@ def catalogue_specs(ctx, cases, n_target, base):
     for p in pairs:
         by_pair[p].sort(key=lambda c: json.dumps(c['s'], sort_keys=True))
     specs = []
+    # peel block: every loop>0 / on='enter' row of the table whose template replaces the match by one of its own parts,
+    # on the program with several locations of different depth (finite loop: a fresh budget for every location)
+    peel_prog = len(PROGRAMS) - 1
+    peel = [c for c in cases if (c['t'].startswith('e_peel_') or c['t'] == 's_unwrap_b') and c['s']['loop'] > 0
+            and c['s']['on'] == 'enter' and c['s']['cb'] and c['s']['count'] == 0 and c['s']['docstr']]
+    peel.sort(key=lambda c: (c['p'], c['t'], json.dumps(c['s'], sort_keys=True)))
+    for rep in range(1 if ctx.quick else 6):
+        for c in peel:
+            specs.append({'kind': 'cat', 'tid': base + len(specs) + 1, 'p': c['p'], 't': c['t'], 'cat': c['cat'],
+                          'cfg': c['s'], 'progs': [peel_prog], 'variant': rng.randrange(layouts.N_VARIANTS) if rep else 0,
+                          'lseed': rng.randrange(1 << 20), 'fst': False})
+    n_target += len(specs)
     i = 0
     while len(specs) < n_target:
         pair = pairs[i % len(pairs)]
